@@ -123,17 +123,18 @@ type pval struct {
 }
 
 type opPlan struct {
-	op           simapi.Op
-	kind         string // none json urlenc multipart
-	vals         []*pval
-	prod         string
-	status       int
-	hdrs         map[string]string
-	result       any
-	useResponder bool
-	failWith     int // handler returns an error with this code (0 = success)
-	respFailAt   int // >=0: the handler answers with a stream that fails after that many bytes (octet-stream only); -1 none
-	failMsg      string
+	op             simapi.Op
+	kind           string // none json urlenc multipart
+	vals           []*pval
+	prod           string
+	status         int
+	hdrs           map[string]string
+	result         any
+	useResponder   bool
+	stockResponder bool // with useResponder: answer through middleware.Error(code, data, headers) instead of a hand-written responder
+	failWith       int  // handler returns an error with this code (0 = success)
+	respFailAt     int  // >=0: the handler answers with a stream that fails after that many bytes (octet-stream only); -1 none
+	failMsg        string
 }
 
 func genOp(t *kernel.Tape, idx int, tmpl string, method string) *opPlan {
@@ -315,6 +316,7 @@ func (pl *opPlan) genValues(t *kernel.Tape, env *kernel.Env) (awk bool) {
 	}
 	// response side
 	pl.useResponder = t.Bool(2, "responder")
+	pl.stockResponder = t.Bool(3, "stock-error-responder")
 	pl.hdrs = map[string]string{}
 	if pl.useResponder {
 		nh := t.Choose(3, "resp-nhdr")
@@ -489,6 +491,14 @@ func (prop) Run(t *testing.T, tape *kernel.Tape, sc kernel.Scenario) *kernel.Res
 			}
 			if !pl.useResponder {
 				return pl.result, nil
+			}
+			if pl.stockResponder {
+				// the library's own generic responder (status, payload, headers)
+				h := http.Header{}
+				for k, v := range pl.hdrs {
+					h.Set(k, v)
+				}
+				return middleware.Error(pl.status, pl.result, h), nil
 			}
 			return middleware.ResponderFunc(func(rw http.ResponseWriter, pr runtime.Producer) {
 				for k, v := range pl.hdrs {
